@@ -72,7 +72,7 @@ TKill == /\ IsEvent("Kill")
 TTrack == /\ IsEvent("Track")
           /\ Env("Track", TrackOK(Rec.reg))
           /\ Track(Rec.reg)
-          /\ After({}) /\ UNCHANGED tid
+          /\ After(Tags("Track", "-", "-", Rec.reg, 0)) /\ UNCHANGED tid
 TTeardown == /\ IsEvent("Teardown")
              /\ Env("Teardown", Rec.reg \in Trackable)
              /\ Teardown(Rec.reg)
